@@ -111,6 +111,19 @@ def same_value(a, b):
         return len(la) == len(lb) and all(x[0] == y[0] and same_value(x[1], y[1]) for x, y in zip(la, lb))
     return a == b
 
+CIRC = [10000]          # CJSON_CIRCULAR_LIMIT of the source under test (set by generate / corpus)
+
+def nf_depth(v):
+    """nesting depth of a normal form (iterative: the oracle must not depend on python's recursion limit)"""
+    best = 0; stack = [(v, 1)]
+    while stack:
+        x, d = stack.pop()
+        if x is None: continue
+        best = max(best, d)
+        if x[0] == 'a': stack += [(e, d + 1) for e in x[1]]
+        elif x[0] == 'o': stack += [(e, d + 1) for _, e in x[1]]
+    return best
+
 def decode_case(line):
     """(kind, cs, first operand, second operand, claim) from the case line itself (operands as normal forms, None = NULL);
     claim = the conformance statement of C18 applies: case-sensitive, JSON documents with distinct member names
@@ -119,8 +132,10 @@ def decode_case(line):
     _, a, pos = parse_dump(t, 2); _, b, pos = parse_dump(t, pos)
     if kind == 'mergepatch':
         claim = bool(cs) and b is not None and (a is None or distinct_keys(a)) and distinct_keys(b)
+        claim = claim and nf_depth(b) <= CIRC[0]           # cJSON_Duplicate refuses deeper values: outside the conformance claim (robustness only)
     else:
         claim = bool(cs) and a is not None and b is not None and distinct_keys(a) and distinct_keys(b) and no_null_member(b)
+        claim = claim and nf_depth(a) <= CIRC[0] and nf_depth(b) <= CIRC[0]
     return kind, cs, a, b, claim
 
 # ---------------------------------------------------------------- generators
@@ -215,10 +230,13 @@ def mutate(rng, v, depth=0, keys=MKEYS):
         return 'x'
     return rng.choice([1, 'y', Obj(), Obj([('b', Obj([('c', 2)]))]), False, [None]])
 
-def corpus(ctx): return load_corpus(ctx['verif'], 'C18')
+def corpus(ctx):
+    CIRC[0] = circular_limit(ctx['repo'])
+    return load_corpus(ctx['verif'], 'C18')
 
 def generate(ctx):
     rng = random.Random(ctx['seed'] * 7368787 + 18)
+    CIRC[0] = circular_limit(ctx['repo'])
     quick = ctx['tier'] == 'quick'
     cases = []
     def add_apply(target, patch, cs, tags, flags=True):
